@@ -66,7 +66,10 @@ def cxx(e):
     if k == "bfun":
         return e[1] + "(" + cxx(e[2]) + "," + cxx(e[3]) + ")"
     if k == "cond":
-        return "(" + lcxx(e[1]) + " ? " + cxx(e[2]) + " : " + cxx(e[3]) + ")"
+        if len(e) > 4:  # root of the formula
+            return lcxx(e[1]) + " ? " + cxx(e[2]) + " : " + cxx(e[3])
+        c = e[1]
+        return "(" + cxx(c[2]) + CMPS[c[1]] + cxx(c[3]) + " ? " + cxx(e[2]) + " : " + cxx(e[3]) + ")"
     if k == "diff":
         n = e[3] if len(e) > 3 else 1
         return ("diff(%s,%s)" if n == 1 else "diff<" + str(n) + ">(%s,%s)") % (cxx(e[1]), VARS[e[2]])
@@ -105,7 +108,10 @@ def sx(e):
     if k == "bfun":
         return "(bfun %s %s %s)" % (e[1], sx(e[2]), sx(e[3]))
     if k == "cond":
-        return "(cond %s %s %s)" % (lsx(e[1]), sx(e[2]), sx(e[3]))
+        if len(e) > 4:
+            return "(cond %s %s %s)" % (lsx(e[1]), sx(e[2]), sx(e[3]))
+        c = e[1]
+        return "(cond (cmp %s %s %s) %s %s)" % (c[1], sx(c[2]), sx(c[3]), sx(e[2]), sx(e[3]))
     if k == "diff":
         n = e[3] if len(e) > 3 else 1
         s = sx(e[1])
@@ -181,11 +187,12 @@ def unit_suite():
     u.append((num(3, 1), "D:0", pts[0]))
     cnd = ("cmp", "gt", X, num(1, 1))
     for p in pts:
-        u.append((("cond", cnd, A2, A1), "D:0", p))
-        u.append((("cond", cnd, C1, C2), "D:0", p))
-        u.append((("cond", ("cmp", "lt", Y, num(2, 1)), A2, C1), "D:0", p))
-        u.append((("cond", ("and", cnd, ("not", ("cmp", "le", Y, X))), A2, B("mult", A1, X)), "D:0", p))
-        u.append((("cond", ("or", ("cmp", "ge", X, Y), ("cmp", "eq", Z, num(5, 10))), A2, B("mult", A1, X)), "D:0", p))
+        u.append((("cond", cnd, A2, A1, "root"), "D:0", p))
+        u.append((("cond", cnd, C1, C2, "root"), "D:0", p))
+        u.append((("cond", ("cmp", "lt", Y, num(2, 1)), A2, C1, "root"), "D:0", p))
+        u.append((("cond", ("and", cnd, ("not", ("cmp", "le", Y, X))), A2, B("mult", A1, X), "root"), "D:0", p))
+        u.append((("cond", ("or", ("cmp", "ge", X, Y), ("cmp", "eq", Z, num(5, 10))), A2, B("mult", A1, X), "root"), "D:0", p))
+        u.append((B("mult", ("cond", ("cmp", "gt", X, num(1, 1)), X, A2), A1), "D:0", p))
     # refused: every function without a rule, directly, under an operator, and where it does not depend on x
     for f in UFN:
         arg = B("plus", X, num(15, 10))
@@ -252,16 +259,25 @@ class Gen:
         if k < 0.88:
             return ("fun", r.choice(DFN), self.expr(d - 1, refused_ok))
         if k < 0.93:
-            c = ("cmp", r.choice(list(CMPS)), self.expr(d - 2, refused_ok), self.expr(d - 2, refused_ok))
-            if r.random() < 0.3:
-                c2 = ("cmp", r.choice(list(CMPS)), self.leaf(), self.leaf())
-                c = (r.choice(["and", "or"]), c, c2) if r.random() < 0.7 else ("not", c)
-            return ("cond", c, self.expr(d - 1, refused_ok), self.expr(d - 1, refused_ok))
+            # a conditional inside a parenthesised group: the code finds '?' and ':' only before the first ')' of the
+            # group, so condition and first alternative are written without parentheses (leaves)
+            return ("cond", ("cmp", r.choice(list(CMPS)), self.leaf(), self.leaf()), self.leaf(), self.expr(d - 1, refused_ok))
         if not refused_ok:
             return ("fun", r.choice(DFN), self.expr(d - 1, refused_ok))
         if k < 0.98:
             return ("ufun", r.choice(UFN), self.expr(d - 1, refused_ok))
         return ("bfun", r.choice(BFN), self.expr(d - 1, refused_ok), self.expr(d - 1, refused_ok))
+
+    def root(self, d, refused_ok=True):
+        """at the root of a formula the three parts of a conditional may be any formula"""
+        r = self.r
+        if r.random() < 0.12:
+            c = ("cmp", r.choice(list(CMPS)), self.expr(d - 2, refused_ok), self.expr(d - 2, refused_ok))
+            if r.random() < 0.4:
+                c2 = ("cmp", r.choice(list(CMPS)), self.expr(1, refused_ok), self.leaf())
+                c = (r.choice(["and", "or"]), c, c2) if r.random() < 0.7 else ("not", c)
+            return ("cond", c, self.expr(d - 1, refused_ok), self.expr(d - 1, refused_ok), "root")
+        return self.expr(d, refused_ok)
 
     def point(self):
         r = self.r
@@ -297,7 +313,7 @@ def main(c):
     nform = c.pick(1500, 12000)
     for k in range(nform):
         refused_ok = (k % 4 == 0)
-        e = g.expr(c.rng.choice([2, 3, 3, 4, 4, 5]) if c.quick() else c.rng.choice([2, 3, 4, 5, 6, 7, 8]), refused_ok)
+        e = g.root(c.rng.choice([2, 3, 3, 4, 4, 5]) if c.quick() else c.rng.choice([2, 3, 4, 5, 6, 7, 8]), refused_ok)
         for _ in range(2):
             p = g.point()
             i = c.rng.choice([0, 0, 0, 1, 2])
@@ -336,6 +352,7 @@ def main(c):
     if rc != 0:
         c.report("model-driver", "the model driver failed: " + merr[-400:], {"stderr": merr[-3000:]}, False)
         return
+    c.log("real code and model executed on %d cases" % len(cases))
     M = {}
     for l in mout.splitlines():
         t = l.split()
@@ -345,6 +362,7 @@ def main(c):
     stats = {"value_compared": 0, "deriv_compared": 0, "refused_both": 0, "skipped_domain": 0, "skipped_illcond": 0,
              "fd_checked": 0, "second_order": 0}
     rule_hits = {}
+    nbad = [0]
     for cs in cases:
         cid, e, mode, p, unit = cs
         f = cxx(e)
@@ -411,8 +429,11 @@ def main(c):
         if mode.startswith("D:") and math.isfinite(fd):
             fdtxt = "; central finite difference of the real getValue: %.9g" % fd
         if not ok:
-            c.report("deriv:" + key, "differentiate('%s', %s) evaluates to %.15g at %s, the model's rule gives %.15g (tolerance %.3g)%s" % (
-                f, vname, dval, pt, md, tol, fdtxt), rep, True)
+            nbad[0] += 1
+            if nbad[0] > 12:
+                continue
+            c.report("deriv:" + key, "differentiate('%s', %s)%s evaluates to %.15g at %s, the model's rule gives %.15g (tolerance %.3g)%s" % (
+                f, vname, " differentiated again (%s)" % mode if mode.startswith("DD") else "", dval, pt, md, tol, fdtxt), rep, True)
             continue
         # independent statement on the unit suite: the derivative returned by the code against finite differences of the code
         if unit and mode.startswith("D:") and math.isfinite(fd):
@@ -422,6 +443,9 @@ def main(c):
                     continue  # same root cause as the reported log10 finding
                 c.report("fd:" + "%s:%s" % (f, mode), "differentiate('%s', %s) evaluates to %.12g at %s, finite differences of getValue give %.12g" % (
                     f, vname, dval, pt, fd), rep, True)
+    if nbad[0] > 12:
+        c.notes.append("%d derivative mismatches in all, the first 12 reported (unit suite first)" % nbad[0])
+    c.log("correspondence done: %s" % stats)
     c.coverage.update({"comparisons": stats, "rule_hits": dict(sorted(rule_hits.items())),
                        "unit_cases": nunit, "generated_formulas": nform})
     c.coverage["rule"] = ("unit suite: every differentiateFunction specialisation (13) with u'=1, constant u', general u', independent u, second "
